@@ -253,7 +253,7 @@ class Ctx:
                 self.stats.bump("abs_unsat")
                 return False
         r, m = self._solve_components(
-            asserts + list(assumptions), 15000 if expect_sat else QUERY_TIMEOUT_MS, want_model=True, expect_sat=expect_sat
+            asserts + list(assumptions), 4000 if expect_sat else QUERY_TIMEOUT_MS, want_model=True, expect_sat=expect_sat
         )
         if r == z3.unknown:
             raise Inconclusive("solver unknown on a final query")
